@@ -382,6 +382,7 @@ func reportProperty(e *Engine, o runOpts, res *propResult) int {
 		"vacuity_checks":          vacChecked,
 		"unreachable_return_sites": deadSites,
 		"unreachable_return_site_list": deadList,
+		"slowest_obligations":     slowest(res.obls, 10),
 		"vacuity_note":            "for every return site of every function under contract the query 'assumptions ==> false' was posed; a function whose return sites are ALL unreachable is reported as a machinery error (contradictory assumptions); single unreachable sites are dead error handling",
 		"samples":                samples,
 		"explanation":            "every obligation is a verification condition generated from the SSA of /repo's current working tree for the functions listed, against the contracts in /repo/contracts_verif.go; discharged = answered unsat",
@@ -466,3 +467,22 @@ func cmdReplay(o runOpts, args []string) int {
 }
 
 var _ = ssa.NewProgram
+
+// slowest: the n obligations with the largest solver time of this run (name, seconds, deciding back end)
+func slowest(obls []*Obligation, n int) []map[string]any {
+	var xs []*Obligation
+	for _, ob := range obls {
+		if !ob.Vacuity && !ob.Trivial {
+			xs = append(xs, ob)
+		}
+	}
+	sort.Slice(xs, func(i, j int) bool { return xs[i].Time > xs[j].Time })
+	if len(xs) > n {
+		xs = xs[:n]
+	}
+	var out []map[string]any
+	for _, ob := range xs {
+		out = append(out, map[string]any{"obligation": ob.Name, "seconds": float64(int(ob.Time*100)) / 100, "decided_by": ob.Solver})
+	}
+	return out
+}
